@@ -696,6 +696,16 @@ def eval_join(ir, env):
             cur = eval_aggr_clause(("aggrclause", ("ds", "__J__"), items, mode, gids, None), {"__J__": cur})
         else:
             cur = eval_ds(("clause", ckind, ("ds", "__J__"), payload), {"__J__": cur})
+    # a qualified name alias#comp that is no longer ambiguous after the body is exposed as comp
+    cc, rr = cur
+    ren = {}
+    for n in cc:
+        if "#" in n:
+            base = n.split("#", 1)[1]
+            if sum(1 for m in cc if m == base or m.endswith("#" + base)) == 1:
+                ren[n] = base
+    if ren:
+        cur = ({ren.get(n, n): v for n, v in cc.items()}, [{ren.get(n, n): v for n, v in r.items()} for r in rr])
     return cur
 
 
